@@ -35,7 +35,15 @@ def run(argv):
             raise
         return ("error", type(e).__name__, str(e)[:300])
     finally:
-        logging.shutdown()
+        # every command is its own process for a user: do not let the logging configuration of one call (e.g.
+        # a -vvv run) leak into the next call or into function-level streams
+        for h in logging.root.handlers[:]:
+            logging.root.removeHandler(h)
+            try:
+                h.flush()
+            except Exception:  # noqa
+                pass
+        logging.root.setLevel(logging.WARNING)
 
 
 def fmt_time(epoch):
@@ -64,13 +72,22 @@ def write_dataset(ctx_dir, name, rain, et, level, fmt=fmt_time):
     return p, e, z
 
 
+VERBOSITY = [0]     # set by the streams: number of -v flags to add to every command (with a scratch --logfile)
+
+
+def verbose_args(db):
+    if not VERBOSITY[0]:
+        return []
+    return ["-" + "v" * VERBOSITY[0], "--logfile", db + ".log"]
+
+
 def load(db, files, tz="UTC"):
     p, e, z = files
-    return run(["load", db, "-p", p, "-e", e, "-z", z, "--timezone", tz])
+    return run(["load", db, "-p", p, "-e", e, "-z", z, "--timezone", tz] + verbose_args(db))
 
 
 def classify(db, s, j):
-    return run(["classify", db, "-s", repr(float(s)), "-j", repr(float(j))])
+    return run(["classify", db, "-s", repr(float(s)), "-j", repr(float(j))] + verbose_args(db))
 
 
 TABLES = {
@@ -116,11 +133,12 @@ def dump(db, tables=None):
     return out
 
 
-def run_subprocess(argv):
+def run_subprocess(argv, extra_env=None):
     """The command as a user runs it: a fresh interpreter per command (bin/spowtd)."""
     import subprocess
     import sys
     env = dict(os.environ, PYTHONPATH=common.REPO, MPLBACKEND="Agg")
+    env.update(extra_env or {})
     p = subprocess.run([sys.executable, os.path.join(common.REPO, "bin", "spowtd")] + [str(a) for a in argv],
                        capture_output=True, text=True, env=env, timeout=600)
     return ("ok",) if p.returncode == 0 else ("error", "exit %d" % p.returncode, p.stderr[-300:])
